@@ -449,7 +449,43 @@ def py_value(val, dt, o):
     raise ValueError(val)
 
 
+_BIG = {}
+
+
+def big_selfassign(n, kind, dt):
+    """a big array (n rows of 3 cells, values 0 .. 3n-1) assigned to a permutation of itself, once per process"""
+    key = (n, kind, dt)
+    if key not in _BIG:
+        if len(_BIG) > 4:
+            _BIG.clear()
+        a = RaggedArray(np.arange(3 * n).astype(_enc.DT2NP[dt]), np.full(n, 3, dtype=np.int64))
+        if kind == "rowrev":
+            a[::-1] = a
+        elif kind == "colrev":
+            a[:, ::-1] = a
+        else:
+            raise ValueError(kind)
+        _BIG[key] = a
+    return _BIG[key]
+
+
+def op_setitem_embedded(case, o):
+    """The case is the restriction of a self-aliasing assignment on a big array (more than 65 536 cells) to a set of rows that the
+    assignment maps onto itself: rows {i, n-1-i} of `ra[::-1] = ra`, row {i} of `ra[:, ::-1] = ra`.  TLC judges the small case; the
+    observed rows come from the big execution."""
+    e = o["embed"]
+    n, kind, pos = int(e["n"]), e["kind"], [int(p) for p in e["pos"]]
+    dt = case[1][0]
+    want = [[3 * p, 3 * p + 1, 3 * p + 2] for p in pos]
+    if [[int(v) for v in r] for r in case[1][1]] != want:
+        raise ValueError("embedded rows do not match the big array")
+    a = big_selfassign(n, kind, dt)
+    return ["array", dt_of(a.dtype), [enc_seq(a[p], False, dt) for p in pos]]
+
+
 def op_setitem(case, o):
+    if o.get("embed"):
+        return op_setitem_embedded(case, o)
     arr, rsel, csel, val = case[1], case[2], case[3], case[4]
     a = build(arr, o.get("via", "flat"))
     idx = py_index(rsel, csel, o.get("spelling", "plain"))
